@@ -15,7 +15,7 @@ META = dict(
     functions_encoded=['(*Paragraph).WriteTo', '(*Paragraph).Set', 'control.NewEncoder', '(*Encoder).Encode/encode/encodeSlice/encodeStruct', 'control.convertToParagraph',
                        '(*Paragraph).Update', 'control.Marshal', 'the reader of C07', 'bytes.Buffer (from its SSA)'],
     stubs=['strings.Replace / Split / Join (position case split)', 'fmt.Sprintf("%s: %s\\n")', 'reflect model'],
-    bounds={'quick': 'values: every string of length <= 4 over {newline, space, tab, ".", "a"} that is a sequence of text lines a field can hold; documents: the C07 templates (read, write, read); encoder: 1-3 paragraphs of 1-2 single-line fields',
+    bounds={'quick': 'values: every string of length <= 4 over {newline, space, tab, ".", "a"} that is a sequence of text lines a field can hold; documents: the C07 templates (read, write, read); encoder: 1-3 structs of 1-2 single-line fields, also with one struct that has nothing to write at each position',
             'thorough': 'values of length <= 6'},
     outside_claim=['longer values', 'values with a line that is exactly "." or that carry trailing blanks (deb822 cannot represent them)'],
     assumptions=['values are compared up to one trailing newline on the first cycle and exactly on the second'])
@@ -35,6 +35,8 @@ def jobs(tier):
     for k in (1, 2, 3):
         for f in (1, 2):
             js.append(dict(name='enc_%d_%d' % (k, f), kind='enc', k=k, f=f, n=0))
+    for empty in (0, 1, 2):
+        js.append(dict(name='enc_empty_%d' % empty, kind='enc', k=3, f=2, n=0, empty=empty))
     js.sort(key=lambda j: -j['n'])
     return js
 
@@ -58,7 +60,7 @@ def run_job(env, job):
     args = []
     for i in range(3):
         for j in range(2):
-            args.append(Str(sym.leaf(1 if (i < k and j < f) else 0, c07.VIS, c07.PRN, last=c07.VIS)))
+            args.append(Str(sym.leaf(1 if (i < k and j < f and i != job.get('empty')) else 0, c07.VIS, c07.PRN, last=c07.VIS)))
     return run_harness(env, PKG, 'VerifC08Encoder', [k, f] + args, sym.assume, unwind=80, sample='%d paragraphs of %d fields through one Encoder' % (k, f))
 
 
